@@ -181,12 +181,14 @@ def scene_cases(draw, tier="quick"):
             if g["label"] == "false_positive":
                 g["label"] = d["targets"][0]
     pools = {"center": [0.0, 0.3, 0.5, 1.0, 2.0, 4.0], "plane": [0.0, 0.5, 1.0, 2.0, 3.0], "iou2d": [0.1, 0.3, 0.5, 0.7], "iou3d": [0.1, 0.2, 0.5]}
+    # the order in which a configuration lists its threshold rows is free: the looser row may come first
+    d["loose_first"] = draw(st.booleans())
     for k, pool in pools.items():
         a = draw(GEN.per_label(n, st.sampled_from(pool)))
         b = draw(GEN.per_label(n, st.sampled_from(pool)))
         mode = "IOU2D" if k.startswith("iou") else "CENTERDISTANCE"
         tight, loose = _loosen_order(mode, a, b)
-        d["thr"][k] = [tight, loose]
+        d["thr"][k] = [loose, tight] if d["loose_first"] else [tight, loose]
     return d
 
 
@@ -207,7 +209,7 @@ def scene_manager(ctx, d):
         for mode, ms in by_mode.items():
             if len(ms) != 2:
                 continue
-            t, l = ms  # config order: tight row first
+            t, l = (ms[1], ms[0]) if d.get("loose_first") else ms  # config order
             for i, lab in enumerate(d["targets"]):
                 _mono(ctx, t["ap"][i], l["ap"][i], f"{where} AP[{lab}] ({mode} {t['thr'][i]} -> {l['thr'][i]})", "ap-decreases")
                 _mono(ctx, t["aph"][i], l["aph"][i], f"{where} APH[{lab}] ({mode})", "aph-decreases")
